@@ -7,6 +7,7 @@ import (
 	"bytes"
 	"fmt"
 	"reflect"
+	"runtime/debug"
 	"sort"
 	"strings"
 
@@ -83,6 +84,8 @@ func init() {
 	}
 	// brw <san> <tid> <name> <hex>: the same boxed TL1 bytes read by both variants, everything re-encoded
 	ops["brw"] = func(f []string) string {
+		old := debug.SetMaxStack(32 << 20) // runaway recursion (F7 / F39, not ours) must die quickly
+		defer debug.SetMaxStack(old)
 		it := meta.FactoryItemByTLName(f[3])
 		if it == nil {
 			return "driver-error no item " + f[3]
